@@ -142,6 +142,11 @@ pub fn run_c14(cx: &Ctx) -> i32 {
             let ample = engine::compile_with(&pattern, |b| {
                 b.delegate_size_limit(50 << 20).delegate_dfa_size_limit(50 << 20).backtrack_limit(10_000_000);
             });
+            // backtrack_limit applies to fancy patterns as documented: "if this limit is exceeded,
+            // execution returns an error"
+            let limit1 = engine::compile_with(&pattern, |b| {
+                b.backtrack_limit(1);
+            });
             t.programs += 1;
             let (is_vm, _) = engine::engine_class(&unset);
             t.count(if is_vm { "programs_vm" } else { "programs_wrapped" }, 1);
@@ -175,9 +180,23 @@ pub fn run_c14(cx: &Ctx) -> i32 {
                     if f != base {
                         viol(&mut t, text, pos, format!("case_insensitive(false) gives {} but no option gives {}", f.short(), base.short()));
                     }
+                    fancy_regex::verif::reset_stats();
                     let a = engine::captures_at(&ample, text, pos);
+                    let needed = fancy_regex::verif::stats().backtracks;
                     if a != base {
                         viol(&mut t, text, pos, format!("ample size/backtrack limits give {} but no option gives {}", a.short(), base.short()));
+                    }
+                    if let Ok(l1) = &limit1 {
+                        let r = engine::captures_at(l1, text, pos);
+                        let is_limit_err = matches!(&r, Out::Err(e) if e == "BacktrackLimitExceeded");
+                        if needed > 1 && !is_limit_err {
+                            viol(&mut t, text, pos, format!("backtrack_limit(1): the search needs {} backtracks, yet the result is {} instead of BacktrackLimitExceeded", needed, r.short()));
+                        } else if needed <= 1 && r != base {
+                            viol(&mut t, text, pos, format!("backtrack_limit(1): the search needs {} backtracks, yet the result is {} instead of {}", needed, r.short(), base.short()));
+                        }
+                        if needed > 1 {
+                            t.count("limit_exceeded_cases", 1);
+                        }
                     }
                     // non-trivial: the flag matters on this case
                     if e != base {
@@ -195,7 +214,7 @@ pub fn run_c14(cx: &Ctx) -> i32 {
         t,
         Finish {
             rule: format!(
-                "every pattern of {} (mixed-case atoms, inner (?-i:..) and (?i:..) groups, fancy and plain) x every text over {:?} up to length {} x every offset: build(P).case_insensitive(true) == build((?i)P) on all groups, case_insensitive(false) == no option, ample delegate_size_limit / delegate_dfa_size_limit / backtrack_limit == no option; plus: for each large plain piece of {:?} that fails to build under delegate_size_limit(10 / 1000), every fancy host of {:?} embedding it as a delegated piece must fail to build too (CompileError::InnerError); metamorphic, no reference model; non-trivial = cases on which case-insensitivity changes the result",
+                "every pattern of {} (mixed-case atoms, inner (?-i:..) and (?i:..) groups, fancy and plain) x every text over {:?} up to length {} x every offset: build(P).case_insensitive(true) == build((?i)P) on all groups, case_insensitive(false) == no option, ample delegate_size_limit / delegate_dfa_size_limit / backtrack_limit == no option; backtrack_limit(1) yields BacktrackLimitExceeded exactly when the search needs more than one backtrack (count read through hook H1) and the unlimited result otherwise; plus: for each large plain piece of {:?} that fails to build under delegate_size_limit(10 / 1000), every fancy host of {:?} embedding it as a delegated piece must fail to build too (CompileError::InnerError); metamorphic, no reference model; non-trivial = cases on which case-insensitivity changes the result",
                 space.describe(), alphabet, max_len, LARGE, HOSTS
             ),
             exhaustive: true,
